@@ -13,6 +13,7 @@ import (
 	"time"
 
 	"github.com/rulego/streamsql"
+	"github.com/rulego/streamsql/functions"
 	"github.com/rulego/streamsql/stream"
 	"github.com/rulego/streamsql/types"
 )
@@ -101,6 +102,16 @@ func (c18) Gen(rng *rand.Rand, tier string, idx int) Case {
 			c.Ops = append(c.Ops, []string{"exotic", kind, strconv.Itoa(p)})
 		}
 		c.Stat = append(c.Stat, "exotic-row-values", "exotic-"+kind)
+		return c
+	}
+	if idx%13 == 8 && idx/13 < 6 {
+		// a custom function that panics for one ordinary value (and is handed the unusual ones too), in a SELECT item, in
+		// WHERE and inside an aggregate argument of a windowed query
+		kind := []string{"fnsel", "fnwhere", "fnagg"}[(idx/13)%3]
+		for _, p := range [][]int{{18, 0, 8}, {18, 12, 3}}[(idx/13)/3] {
+			c.Ops = append(c.Ops, []string{"exotic", kind, strconv.Itoa(p)})
+		}
+		c.Stat = append(c.Stat, "exotic-row-values", "exotic-"+kind, "custom-function-panics")
 		return c
 	}
 	if idx%97 == 5 || idx%97 == 37 || idx%97 == 69 {
@@ -615,6 +626,28 @@ var c18ExoticSQL = map[string]string{
 	"cep":     "SELECT * FROM stream MATCH_RECOGNIZE (ORDER BY ts MEASURES LAST(id) AS id, MIN(w) AS mn, MAX(w) AS mx, AVG(w) AS av PATTERN (A+ B) DEFINE A AS v > 0, B AS v <= 0)",
 	"cepopen": "SELECT * FROM stream MATCH_RECOGNIZE (ORDER BY ts MEASURES LAST(id) AS id, MIN(w) AS mn, MAX(w) AS mx PATTERN (A+) DEFINE A AS v > 0)",
 	"groupfn": "SELECT upper(k) AS uk, COUNT(*) AS c, MAX(id) AS id FROM stream GROUP BY upper(k), CountingWindow(1)",
+	// a custom function that panics for a negative number, in a SELECT item, in WHERE, and inside an aggregate argument
+	// (evaluated by the window-output consumer): the row or batch is lost, later rows are processed
+	"fnsel":   "SELECT id, zzboom(w) AS z FROM stream",
+	"fnwhere": "SELECT id FROM stream WHERE zzboom(w) >= 0",
+	"fnagg":   "SELECT COUNT(*) AS c, SUM(zzboom(w)) AS s, MAX(id) AS id FROM stream GROUP BY CountingWindow(1)",
+}
+
+func init() {
+	_ = functions.RegisterCustomFunction("zzboom", functions.TypeCustom, "verif", "panics for a negative number", 1, 1,
+		func(ctx *functions.FunctionContext, args []interface{}) (interface{}, error) {
+			switch x := args[0].(type) {
+			case float64:
+				if x < 0 {
+					panic("zzboom")
+				}
+			case int:
+				if x < 0 {
+					panic("zzboom")
+				}
+			}
+			return args[0], nil
+		})
 }
 
 var c18ExoticKinds = []string{"direct", "join", "orderby", "batch", "cep", "cepopen", "groupfn"}
@@ -625,7 +658,8 @@ func c18ExoticValues() []interface{} {
 	var nt *time.Time
 	f32 := float32(0.1)
 	return []interface{}{[]byte("ab"), np, nt, c18Stringer{"x"}, &c18Stringer{"y"}, time.Unix(1700000000, 0), "21.5°C", "",
-		math.NaN(), math.Inf(1), uint64(1) << 63, &f32, struct{ A int }{1}, []int{1, 2}, map[string]int{"a": 1}, json.Number("7"), complex(1, 2), []interface{}{"p", 1}}
+		math.NaN(), math.Inf(1), uint64(1) << 63, &f32, struct{ A int }{1}, []int{1, 2}, map[string]int{"a": 1}, json.Number("7"), complex(1, 2), []interface{}{"p", 1},
+		float64(-1)} // index 18: an ordinary number — the one the function of the fn* kinds panics for
 }
 
 // c18ExoticTwins: a second value of the same Go type for each entry of c18ExoticValues (two different keys of that type
@@ -635,7 +669,8 @@ func c18ExoticTwins() []interface{} {
 	var nt *time.Time
 	f32 := float32(0.2)
 	return []interface{}{[]byte("cd"), np, nt, c18Stringer{"z"}, &c18Stringer{"w"}, time.Unix(1700000001, 0), "22.5°C", " ",
-		math.NaN(), math.Inf(-1), uint64(1)<<63 + 2048, &f32, struct{ A int }{2}, []int{3}, map[string]int{"b": 2}, json.Number("8"), complex(2, 1), []interface{}{"q"}}
+		math.NaN(), math.Inf(-1), uint64(1)<<63 + 2048, &f32, struct{ A int }{2}, []int{3}, map[string]int{"b": 2}, json.Number("8"), complex(2, 1), []interface{}{"q"},
+		float64(-2)}
 }
 
 // c18exotic: one query, ordinary rows, rows carrying an exotic value in k / v / w, ordinary rows again, Stop.
@@ -692,7 +727,8 @@ func c18exotic(kind string, pick int) [][]string {
 	emit(row(102, "a", 1, 2.5))
 	emit(row(103, "a", 0, 0.5))
 	want := map[string][]string{"direct": {"101", "102", "103"}, "join": {"101", "102", "103"}, "orderby": {"101", "102", "103"},
-		"batch": {"103"}, "cep": {"103"}, "groupfn": {"101", "102", "103"}}[kind]
+		"batch": {"103"}, "cep": {"103"}, "groupfn": {"101", "102", "103"},
+		"fnsel": {"101", "102", "103"}, "fnwhere": {"101", "102", "103"}, "fnagg": {"101", "102", "103"}}[kind]
 	deadline := time.Now().Add(3 * time.Second)
 	missing := func() bool {
 		for _, id := range want {
